@@ -22,6 +22,9 @@ DriverConfigs == {
 \* Merkle cap height of the configuration's MMCS (every full-height commitment carries 2^cap digests) and digest width in field elements
 CapLog(n) == CASE n = "uni_fib_bb_cap1" -> 1 [] n = "batch_two_airs_bb_cap2" -> 2 [] OTHER -> 0
 DigestElems(n) == IF n = "uni_gl_d2" THEN 4 ELSE 8
+\* counts and parameters that are also driven out of range (0, 63, usize::MAX / 2): a verifier parameter or a prover-supplied
+\* count must never size an allocation or a shift unchecked
+OutOfRangeCounts(c) == {"fri.query_proofs[0].commit_phase_openings[0].log_arity"} \cup (IF c.proto = "uni" THEN {"degree_bits"} ELSE {"degree_bits[0]"})
 \* every feature combination (design check only; lookups need the batch verifier)
 AllConfigs == {CfgP("any", p, zk, prep, lk, pv, cp, qp) : p \in {"uni", "batch", "tables"}, zk \in BOOLEAN, prep \in BOOLEAN, lk \in BOOLEAN, pv \in BOOLEAN,
                                                         cp \in BOOLEAN, qp \in BOOLEAN}
@@ -50,7 +53,7 @@ EmitPerConfig == (pc = 0 /\ fault = "none" /\ mal = NoMal) =>
     /\ PrintT(<<"REPLAY", ToJson([spec |-> "Stark", config |-> cfg.name, mode |-> "marker",
                                   model |-> [zk |-> cfg.zk, prep |-> cfg.prep, lookups |-> cfg.lookups, pubvals |-> cfg.pubvals, proto |-> cfg.proto,
                                              roots |-> 2 ^ CapLog(cfg.name), digest |-> DigestElems(cfg.name)]])>>)
-    /\ \A q \in ParamsOf(cfg), o \in {"inc", "dec"} :
+    /\ \A q \in ParamsOf(cfg) \cup OutOfRangeCounts(cfg), o \in (IF q \in ParamsOf(cfg) THEN {"inc", "dec"} ELSE {}) \cup {"zero", "huge", "huger"} :
           PrintT(<<"REPLAY", ToJson([spec |-> "Stark", config |-> cfg.name, mode |-> "malformed", alter |-> [target |-> q, op |-> o],
                                     model |-> [refused_at |-> "param", validated |-> TRUE]])>>)
     /\ \A k \in Kinds : Present(cfg, k) \/
